@@ -30,4 +30,17 @@ def register(w):
             "forall[int, int](lambda i, j: implies(0 <= i and i < len(L) and 0 <= j and j < len(L) and i != j, not anc(L[i], L[j])))"
             " and forall[int](lambda i: implies(0 <= i and i < len(L), L[i].type != 'history' and (L[i] == root or L[i].parent in S)))"
             " and forall[int, Node](lambda i, n: implies(0 <= i and i < len(L) and anc(n, L[i]), not (n in S)))")
+    # the path a transition enters: a parent-child chain without history nodes, hanging below an active state, whose whole
+    # subtree is still inactive
+    w.macro("fresh_chain", ["L", "S"],
+            "len(L) >= 1 and forall[int](lambda i: implies(0 <= i and i < len(L), L[i] != None and L[i].type != 'history'))"
+            " and (L[0] == root or L[0].parent in S)"
+            " and forall[int](lambda i: implies(1 <= i and i < len(L), L[i].parent == L[i - 1]), lambda i: L[i])"
+            " and forall[int](lambda i: implies(0 <= i and i < len(L), L[i].depth == L[0].depth + i), lambda i: L[i])"
+            " and forall[Node](lambda n: implies(anc(n, L[0]), not (n in S)))")
+    # p has been entered but its explicitly listed child x not yet: p is legal as soon as x is active
+    w.macro("pending", ["p", "S", "x"],
+            "p.type != 'history'"
+            " and implies(p.type == 'compound', forall[Node](lambda c: implies(c in S and c != None, c.parent != p)))"
+            " and implies(p.type == 'parallel', forall[Node](lambda c: implies(c != None and c.parent == p and c.type != 'history' and c != x, c in S)))")
 
